@@ -425,7 +425,7 @@ class Block:
 
 
 class Item:
-    __slots__ = ("kind", "name", "sig", "nargs", "ret", "locals", "blocks", "line", "argtys", "span")
+    __slots__ = ("kind", "name", "sig", "nargs", "ret", "locals", "blocks", "line", "argtys", "span", "targs")
 
     def __repr__(self):
         return "<Item %s %s>" % (self.kind, self.name)
